@@ -4,6 +4,11 @@ import json, os
 V = os.path.dirname(os.path.dirname(os.path.abspath(__file__)))
 
 CLAIMED = {
+ "C09": dict(
+   category="proof", design_ref="DESIGN.md §5 C09, §9.1",
+   text="13 Lean theorems about the executable model of runtime.Runtime (Load transcribed step by step: find specs in namespace ∧ filter → fetch referenced values → bind → compare with the table → insert only when different → free what matches the filter but not the result; Reconcile as consumption of spec/value events): C09.load_exact / load_exact_filtered / load_exact_reachable (after Load the table equals the target computed from the stores, for every reachable state), C09.load_idempotent / load_silent_when_exact / reload_after_full_load_silent (a reload in an unchanged world emits no notification), C09.converges_invariant / converges / converges_eventually (for every history of store mutations, loads and event consumptions: whenever both event queues are empty the table equals the target; draining terminates), C09.converges_concurrent (Load split into read and commit with mutations in between, at most one Load in flight – what the loadMu fix guarantees). Tied to the code by differential execution of a real Runtime over two in-memory stores (sequential histories with Load at random points compared after every Load; Watch+Reconcile compared at quiescence; overlap scenarios driven through a verif yield hook).",
+   note="Store mutations, Loads and event consumptions are atomic steps (store mutex, loadMu); values are abstract versions, text/template is not modelled (C18), specs have no ports (C06–C08 own linking); a second Watch (which replaces the streams) is excluded from the convergence theorems. Fixed defects: DeepEqual of unstructured vs typed spec (reload restarted everything), $or planner narrowing (missed referenced values), unsynchronised overlapping Loads. Trusted: Lean kernel, harness, VerifSymbols/VerifLoadYield hooks.",
+   technique="Lean 4 proof (coverage invariant by induction over histories; idempotence of Load) + model/implementation differential correspondence"),
  "C06": dict(
    category="proof", design_ref="DESIGN.md §5 C06–C08, §9.1",
    text="7 Lean theorems about the executable model of symbol.Table (insert/free/close/links/unlinks/linked/isActivated/load/unload/exec transcribed from table.go, Go map iteration orders as explicit parameters, theorems hold for every order): C06.wiring_exact (for every well-formed history of Insert/Free/Close, whatever the operations returned: a link exists iff source and target are live, in the same namespace, the ports exist and the source's spec names the target by id or by live name – hence no stale and no cross-namespace links: C06.wiring_no_stale, C06.wiring_same_namespace), C06.names_exact, C06.lookup_latest. Tied to the code by differential execution of histories (≤14 ops, universes with shared targets, cycles, self and dangling references, renames, 2 namespaces; 4k cases quick, 120k thorough) on the real Table with real nodes, comparing keys, links, the reverse-reference index and the active set after every operation, plus an independent wiring oracle.",
